@@ -357,7 +357,7 @@ def run_shard(ctx, spec):
 
 
 def plan(tier, seed):
-    n = 320 if tier == "quick" else 6000
+    n = 2000 if tier == "quick" else 20000
     return [("random", n // 16, i) for i in range(16)]
 
 
@@ -371,7 +371,7 @@ def main(tier, seed):
               "and foreign attributes, multi-byte text) compiled by the real binary under one split of its files into sources and "
               "-R references, with a capturing generator; the captured bytes are decoded with the shipped schema and compared with "
               "the library's AST dump of the same command line. distinct_nontrivial = distinct (program, split, order)"),
-        required={"requests_decoded": 200, "files_compared": 300, "symbols_compared": 1000, "anonymous_symbols": 200},
+        required={"requests_decoded": 2000, "files_compared": 3000, "symbols_compared": 10000, "anonymous_symbols": 2000},
         assumptions=["struct = bit-sequence (only when it has optional fields), fields in schema order, tag-end marker; enum with "
                      "fields = varint32 discriminant, field(s), tag-end marker; enum with underlying type = that type; the layout "
                      "was validated by hand against a captured request (DESIGN.md 4/C08)",
